@@ -312,6 +312,38 @@ func checkC14(c *Ctx) {
 		}
 	}
 
+	// ---- C14.10 "inside one of the subnets configured for that generation": the configured subnet strings are what the
+	// operator wrote - the package parses them, it never rewrites an entry (a "/32" appended to an IPv6 host turns one
+	// address into a /32 network)
+	r.Rule("C14.10", "the configured subnet strings are never rewritten", 1)
+	{
+		nW := 0
+		for _, f := range c.funcsOfPkgs(ph) {
+			if f.Blocks == nil || strings.Contains(r.posStr(f.Pos()), "_test") {
+				continue
+			}
+			eachInstr(f, func(in ssa.Instruction) {
+				st, ok := in.(*ssa.Store)
+				if !ok {
+					return
+				}
+				ia, ok := st.Addr.(*ssa.IndexAddr)
+				if !ok {
+					return
+				}
+				xp := pathOf(ia.X)
+				if !strings.HasSuffix(xp, ".Subnets") && !strings.HasSuffix(xp, ".GetSubnets()") {
+					return
+				}
+				nW++
+				r.Bad("C14.10", fnName(f)+": rewrites an entry of "+firstN(xp, 40), in.Pos(), fnName(f), "a configured subnet string is replaced by a 'normalised' one: what is parsed and selected from is no longer what the operator configured for that generation")
+			})
+		}
+		if nW == 0 {
+			r.OK("C14.10", "no function of the package stores into an element of a Subnets list", token.NoPos, "scanned")
+		}
+	}
+
 	// ---- C14.7 a subnet carries the port flag of the group it was configured in: the flag stored with a parsed subnet is
 	// the RandomizeDstPort of the message its CIDR strings come from, and that message is a group of the configuration
 	// itself (not a message assembled from several groups, whose single flag is whichever group was merged last)
